@@ -446,6 +446,51 @@ def rule_crosscheck(rep):
     rep.ob(R, "summary", bool(keys), "%d (file, construct) pairs compared" % len(keys), "src/")
 
 
+PANIC_MACROS = {"assert", "assert_eq", "assert_ne", "panic", "unreachable", "todo", "unimplemented", "debug_assert", "debug_assert_eq", "debug_assert_ne"}
+# explicit panic sites reviewed on today's tree: (file, function, construct, condition / receiver in normal form) -> why it cannot fire on a valid history
+PANIC_SITES = {
+    ("asynchro_fast.rs", "process_into_buffer", "debug_assert", "(self.chunk_size <= wave_out[chan].as_mut().len())"): "validate_buffers checked this length (R-C13-order)",
+    ("asynchro_sinc.rs", "process_into_buffer", "debug_assert", "(needed_len <= wave_out[chan].as_mut().len())"): "validate_buffers checked this length",
+    ("asynchro_sinc.rs", "process_into_buffer", "debug_assert", "(self.chunk_size <= wave_out[chan].as_mut().len())"): "validate_buffers checked this length",
+    ("synchro.rs", "process_into_buffer", "debug_assert", "(self.chunk_size_out <= wave_out[chan].as_mut().len())"): "validate_buffers checked this length",
+    ("synchro.rs", "process_into_buffer", "debug_assert", "(needed_len <= wave_out[chan].as_mut().len())"): "validate_buffers checked this length",
+    ("*", "get_sinc_interpolated", "assert", "((index + self.length) < wave.len())"): "kernel guard; holds by the loop-margin / provisioning rules (R-C03-margin, R-C03-provision, R-C03-alloc)",
+    ("*", "get_sinc_interpolated", "assert", "(subindex < self.nbr_sincs)"): "kernel guard; holds for oversampling factors >= the offsets (R-C03-subindex)",
+    ("*", "new", "assert", "((sinc_len % i:8) == i:0)"): "constructor-time; make_interpolator rounds sinc_len up to a multiple of 8",
+    ("synchro.rs", "new", ".unwrap", "fft.process(&mut filter_t,&mut filter_f)"): "constructor-time; buffer lengths match the plan (R-C01-ola lengths / plans)",
+    ("synchro.rs", "resample_unit", ".unwrap", "self.fft.process_with_scratch(&mut self.input_buf,&mut self.input_f,&mut self.scratch_fw)"): "realfft only fails on length mismatch; lengths match the plans (R-C01-ola)",
+    ("synchro.rs", "resample_unit", ".unwrap", "self.ifft.process_with_scratch(&mut self.output_f,&mut self.output_buf,&mut self.scratch_inv)"): "lengths match; bins 0 and N/2 are real (forward transform of real data times real-input filter transform, or zero-filled)",
+}
+
+
+def rule_panics(rep):
+    """Explicit panic sites (assert!/panic!/unwrap/expect ...) in non-test code are enumerated; each must be in the reviewed table.
+    A new one is a path on which a valid call history can panic until someone has argued otherwise."""
+    facts = rep.ctx.facts
+    R = "R-C03-panic-sites"
+    seen = 0
+    for qual, fn in facts.all_fns():
+        if not fn.get("body"):
+            continue
+        f = fn.get("_file", "")
+        for x in walk(fn["body"]):
+            kind = cond = None
+            if x.get("k") == "macro" and x["name"].split("::")[-1] in PANIC_MACROS:
+                kind = x["name"].split("::")[-1]
+                cond = nbit(x["args"][0]) if x.get("args") else x.get("tokens", "")
+            elif x.get("k") == "mcall" and x["name"] in ("unwrap", "expect", "unwrap_unchecked", "unwrap_err"):
+                kind = "." + x["name"]
+                cond = nbit(x["recv"])
+            if kind is None:
+                continue
+            seen += 1
+            why = PANIC_SITES.get((f, fn["name"], kind, cond)) or PANIC_SITES.get(("*", fn["name"], kind, cond))
+            rep.ob(R, "%s/%s/%s %s" % (f, fn["name"], kind, cond[:60]), why is not None,
+                   "explicit panic site `%s(%s)` in %s is not in the reviewed table: nothing shows that it cannot fire on a valid call history" % (kind, cond[:90], qual), loc(fn, x),
+                   sample={"site": "%s::%s %s" % (f, fn["name"], kind), "reviewed": why})
+    rep.ob(R, "scan", seen > 0, "%d explicit panic sites enumerated" % seen, "src/")
+
+
 def rule_validate_exact(rep):
     """validate_buffers accepts buffers of exactly the advertised size (and larger): evaluated on order representatives."""
     facts = rep.ctx.facts
@@ -489,6 +534,7 @@ def run(rep):
     rep.guarded("R-C03-validate-exact", rule_validate_exact)
     rep.guarded("R-C03-cpu-guard", rule_cpu_guard)
     rep.guarded("R-C03-subindex", rule_subindex)
+    rep.guarded("R-C03-panic-sites", rule_panics)
     if rep.ctx.tier == "thorough":
         rep.guarded("R-C03-crosscheck", rule_crosscheck)
         rep.floor("R-C03-crosscheck", 8)
@@ -516,6 +562,7 @@ def run(rep):
     rep.floor("R-C03-margin", 2 + 9 + 9)
     rep.floor("R-C03-history", 2)
     rep.floor("R-C03-subindex", 2)
+    rep.floor("R-C03-panic-sites", 21)
     rep.floor("R-C03-cpu-guard", 4 + 1 + 3 * (4 + 1 + 1) + 6)
     rep.floor("R-C03-alloc", 4)
     rep.floor("R-C03-validate-exact", 2)
@@ -526,6 +573,7 @@ def run(rep):
     rep.floor("R-C13-order", 28)
     rep.clause("R-C03-guard", "each of the 4 kernel wrappers asserts index+length < wave.len() and subindex < nbr_sincs before its unsafe code; those fields are the dimensions given to make_sincs; sinc_len % 8 == 0 asserted")
     rep.clause("R-C03-kernel-bounds", "given the asserts, every get_unchecked / SIMD load in the 7 kernels stays inside wave[index..index+length) and the packed table")
+    rep.clause("R-C03-panic-sites", "every explicit panic site (assert!/debug_assert!/panic!/unwrap/expect) of the non-test code is in a reviewed table that says why it cannot fire on a valid history; a new site is reported")
     rep.clause("R-C03-subindex", "sub-indices produced by get_nearest_times_* stay below the oversampling factor for every configuration the constructors accept (today factor 1 with Cubic/Quadratic is accepted: known finding)")
     rep.clause("R-C03-cpu-guard", "each SIMD interpolator refuses construction unless exactly the CPU features its #[target_feature] kernels are compiled for are detected; the kernels are reachable only through it")
     rep.clause("R-C03-chan", "per-channel (unchecked) accesses are indexed by the enumerate index of channel_mask; buffer and mask have nbr_channels entries and are never resized")
